@@ -107,7 +107,7 @@ add_binfunc!(add_int_div, div, X_INT, Int, X_FLOAT, |a: &LazyBigint,
     Ok(if b.is_zero() {
         Err(ManagedXError::new("Division by zero", rt.clone())?)
     } else {
-        rt.can_allocate(a.prospective_size() - b.prospective_size())?;
+        rt.can_allocate(a.prospective_size().saturating_sub(b.prospective_size()))?;
         XValue::float(a.clone().true_div(b.clone()), rt)?
     })
 });
@@ -121,7 +121,7 @@ add_binfunc!(
         Ok(if b.is_zero() {
             Err(ManagedXError::new("Division by zero", rt.clone())?)
         } else {
-            rt.can_allocate(a.prospective_size() - b.prospective_size())?;
+            rt.can_allocate(a.prospective_size().saturating_sub(b.prospective_size()))?;
             Ok(XValue::Int(a.clone().div_floor(b.clone())))
         })
     }
@@ -137,7 +137,7 @@ add_binfunc!(
         Ok(if b.is_zero() {
             Err(ManagedXError::new("Division by zero", rt.clone())?)
         } else {
-            rt.can_allocate(a.prospective_size() - b.prospective_size())?;
+            rt.can_allocate(a.prospective_size().saturating_sub(b.prospective_size()))?;
             Ok(XValue::Int(a.clone().div_ceil(b.clone())))
         })
     }
